@@ -215,7 +215,9 @@ def s4_s5(chk: Check, proj: Project) -> None:
     wr = next((x for x in ast.walk(nf) if isinstance(x, ast.FunctionDef) and x.name == "wrapper_render"), None)
     chk.analysed("django_components.node:NodeMeta.__new__.wrapper_render")
     vp = [c for c in ast.walk(wr) if isinstance(c, ast.Call) and last_attr(c.func) == "validate_params"]
-    oc = [c for c in ast.walk(wr) if isinstance(c, ast.Call) and norm(c.func) == "orig_render"]
+    # the original render: the module-level-of-closure variable bound from `cls.render` before wrapping
+    orn = next((n.targets[0].id for n in ast.walk(nf) if isinstance(n, ast.Assign) and isinstance(n.targets[0], ast.Name) and norm(n.value) == "cls.render"), "orig_render")
+    oc = [c for c in ast.walk(wr) if isinstance(c, ast.Call) and norm(c.func) == orn]
     ok = False
     if len(vp) == 1 and len(oc) == 1:
         st = parent(vp[0])
